@@ -2,7 +2,7 @@ PROP = dict(
     id="C09",
     lean_modules=["TongoProofs.C09", "TongoProofs.C09Tlb"],
     gen=[],
-    spec_ops=("tl.enc", "tl.dec", "tl.fenc", "tl.fdec", "tlc.req", "tl.ans", "tl.reqdec", "tlbs.enc"),
+    spec_ops=("tl.enc", "tl.dec", "tl.fenc", "tl.fdec", "tlc.req", "tlc.bind", "tl.ans", "tl.reqdec", "tlbs.enc"),
     rule="random TL schemas (3..40 declarations: liteServer.error, single-constructor types, sum types of 2..5 "
          "constructors, 1..8 functions; fields of every builtin type, bare and boxed references, vectors of builtins / "
          "declared types / vectors, conditional fields flag.N?T over bits 0..31 with up to three flag fields named "
@@ -11,14 +11,22 @@ PROP = dict(
          "(schema, declaration, value) triple; TL-B half: 6 (thorough 100) random TL-B schemas of 1..12 declarations, per "
          "declared type 40 (200) random values through one go.tlbc.values line",
     trusted_base=[
-        "harness/tlmini: schema generator, tokeniser, reflection binding by the generator's naming convention, "
-        "reference encoder (inputs and go. oracles only); harness/tlexec executors",
+        "the specification itself: Tl.encode / Tl.decode (lean/TongoModel/Tl/Codec.lean) and, for TL-B, goBody / specBody "
+        "(lean/TongoModel/TlbSchema.lean) - written for this verification; the theorems show their internal "
+        "consistency, not their agreement with the TL / TL-B documentation",
+        "the Lean-side parsers that read the schema text carried in every op line: lean/TongoModel/Tl/Parser.lean and "
+        "TlbSchema.parse (no theorem about them; a misparse shows up as a disagreement with the compiled Go code unless "
+        "tl/parser resp. tlb/parser misparse the same way)",
+        "harness/tlmini, harness/tlbmini: schema generators, tokenisers, reflection binding by the generator's naming "
+        "convention, reference encoder (inputs and go. oracles only); harness/tlexec executors",
         "the Go toolchain that compiles the generated packages (offline, module cache)",
     ],
     assumptions=[
         "this is translation validation over sampled programs: the theorems (round trip, prefix-freeness, layout "
-        "clauses) are about the schema semantics Tl.encode/Tl.decode for every schema; tl/parser/generator.go itself "
-        "is not modelled - it is tied to the semantics only on the generated schemas",
+        "clauses) are about the specification Tl.encode/Tl.decode for every schema; tl/parser/generator.go itself "
+        "is not modelled - its output is tied to the specification only on the generated schemas (statically by the "
+        "matcher of steps_eq_schema, op tlc.bind, and by execution); `compiles`, `deterministic output` are "
+        "observations on the samples",
         "subset restrictions imposed by the generator and respected by the schema generator: ids spelled out with 8 "
         "hex digits, a bare reference only to an earlier single-constructor type, no boxed reference to a "
         "single-constructor type, the constructor of a single-constructor type is the lower-cased type name, "
@@ -26,27 +34,53 @@ PROP = dict(
         "CamelCase",
     ],
     partial=[
-        "no theorem about generator.go / tlb/parser/generator.go themselves (string templating over a participle AST): "
-        "they are tied to the proved semantics by translation validation over the sampled schemas",
+        "no theorem about generator.go / tlb/parser/generator.go themselves (string templating over a participle AST). "
+        "TL compiler: its OUTPUT TEXT is the subject of steps_eq_schema / client_steps_eq_schema (for every schema S and "
+        "every output B - as read by translator X7, harness/tlbind - that the decidable matcher agreeAll accepts: the "
+        "MarshalTL / UnmarshalTL step sequences, request wrappers, answer handling and decoder table implement the "
+        "schema for ALL values). The matcher is evaluated per program: by the compiled Lean driver for every sampled "
+        "schema (spec op tlc.bind - compiled evaluation, not kernel; expected answer `ok 1`, an output with a statement "
+        "outside the shapes X7 knows is reported as an extraction failure), and by the kernel for the shipped "
+        "lite_api.tl / generated.go (C10: Gen.bindings_agree, liteapi_steps_eq_schema). Trusted there: X7 itself and "
+        "the hand model of the reflection helpers tl.Marshal / tl.Unmarshal on builtin types; the executed comparison "
+        "of every generated program with the specification is kept in full and covers both",
+        "TL-B compiler: no theorem mentions its output; tied to goBody per sampled schema by exact comparison of "
+        "reflection descriptors (tlbs.desc) and by executed values",
+        "tl_spec_builtin, tl_spec_length_escape, tl_spec_composite and the encode conjuncts of tl_spec_padding restate "
+        "the defining equations of the specification in bytes (reviewability); tl_layout_le, tl_layout_optional, "
+        "tl_layout_items, tl_layout_vector and the padding characterisation of tl_spec_padding are proved by induction / "
+        "arithmetic - all of them about the specification",
         "TL-B half: the model covers the subset uintN intN (## n) # bitsN Bool Coins Grams (VarUInteger n) MsgAddress "
         "Cell ^T (Maybe T) (Maybe ^T) (Either X Y) (HashmapE n X: only the EMPTY dictionary is a value in the model, C05 "
-        "owns the rest) with $/# tagged unions; tlb_schema_sound needs declarations to refer to EARLIER types only "
-        "(no recursive TL-B types); tlb_schema_roundtrip carries C03's decidable well-formedness check of the "
-        "descriptors as a premise, evaluated per schema (op tlbs.ok) - it is not proved for the whole subset",
+        "owns the rest) with $/# tagged unions; tlb_schema_sound is the CONSISTENCY of two translations of a declaration "
+        "written by the same author (goBody: descriptor the generated struct must have; specBody: C04 schema language) "
+        "through the codec model, for declarations that refer to EARLIER types only (no recursive TL-B types, no "
+        "nested Maybe); tlb_schema_roundtrip holds on the decidable sub-class okRT = ok AND C03's descriptor check envOk "
+        "(prefix-free tags, cell-consuming types last, ...): ok alone does not imply it (kernel-checked examples "
+        "exOverlap `$0`/`$01`, exCellFirst `Cell` before a field); okRT is evaluated per schema (op tlbs.ok), not "
+        "characterised in terms of the TL-B text",
         "abi/schemas -> abi/*.go: the repository's abi/generator.go cannot regenerate the checked-in files (it panics on "
         "the checked-in schemas: `not defined type: uint257`, get-method stack type of nft_sale.xml) - reported by the "
         "oracle go.regen.abi as a known finding; the checked-in abi structs are not compared with their declarations",
     ],
-    level="proof",
-    level_text="proof for the schema semantics (tl_decode_encode, tl_prefix_free, tl_layout_* for every well-formed "
-               "schema, by functional induction on the encoder); translation validation for the compiler: every "
-               "sampled schema is compiled, built and executed, and each answer is compared with the proved "
-               "semantics evaluated by the Lean driver on the same schema text. TL-B half: tlb_schema_sound (for every "
-               "schema of the subset the reflection codec on the descriptor a declaration denotes writes exactly the "
-               "bits and references the declaration prescribes - induction over declarations into C04's matcher) and "
-               "tlb_schema_roundtrip (from C03); the compiler is tied to them per generated program: the reflection "
-               "descriptor of every GENERATED struct equals goBody of its declaration (op tlbs.desc, exact), the cells "
-               "it produces equal the schema semantics (spec op tlbs.enc) and decode back (tlbs.dec)",
+    level="translation_validation",
+    level_text="TRANSLATION VALIDATION of the two compilers over sampled schemas, against a specification whose sanity "
+               "is proved. Proved (about the specification Tl.encode/Tl.decode, for every well-formed schema, by "
+               "functional induction on the encoder): tl_decode_encode (with arbitrary trailing bytes), tl_prefix_free, "
+               "tl_encode_defined_iff_typed, tl_layout_optional / tl_layout_vector / tl_layout_le; the tl_spec_* "
+               "theorems only restate its definition in bytes. Proved about the TL compiler's OUTPUT (as extracted by "
+               "X7): steps_eq_schema, method_steps_eq_schema, client_steps_eq_schema - conditional on the decidable "
+               "matcher agreeAll, which is EVALUATED per sampled program by the compiled driver (op tlc.bind) and by "
+               "the kernel for the shipped schema (C10); so per sampled program the codecs are covered for all values, "
+               "the set of programs is a sample. `compiles` and `deterministic` are observations per sampled schema: "
+               "each is compiled twice (identical), built, executed, and every answer is compared with the "
+               "specification evaluated by the Lean driver on the same schema text. NO theorem mentions the output of "
+               "tlb/parser. TL-B half: tlb_schema_sound (consistency of the "
+               "twin readings goBody / specBody of a declaration through C04's matcher and the codec model, every schema "
+               "of the subset) and tlb_schema_roundtrip (class okRT, from C03); the compiler is tied to them per generated "
+               "program: the reflection descriptor of every GENERATED struct equals goBody of its declaration (op "
+               "tlbs.desc, exact), the cells it produces equal the schema semantics (spec op tlbs.enc) and decode back "
+               "(tlbs.dec)",
     line_timeout="300s",
     go_jobs=4,
     search_cap=60000,
